@@ -209,6 +209,15 @@ func TestC08(t *testing.T) {
 		ev.Class("big_list_constructions")
 		return nil
 	})
+	if ev.Thorough() && ev.Cfg.Shard == 0 {
+		// a list of more than 2^24 words, one of which does not change under
+		// title-casing: list sizes and counts beyond what a float32 carries
+		// exactly (one shard only: the list takes a few GB while it is built)
+		ev.Check(t, "c08_huge_list", 1, func(t *rapid.T) c08Case {
+			return c08Case{W: gen.WLSpec{Length: rapid.IntRange(2, 6).Draw(t, "len"), Scheme: rapid.SampledFrom([]string{"random", "one"}).Draw(t, "scheme"),
+				Sep: gen.SepSpec{Kind: "const", Const: ""}}, Calls: 1<<24 + rapid.IntRange(1, 64).Draw(t, "beyond_2^24")}
+		}, c08Huge)
+	}
 	// shipped lists: entropy of the documented example recipes
 	ev.Check(t, "c08_shipped", ev.N(16, 64), func(t *rapid.T) c08Case {
 		return c08Case{W: gen.WLSpec{Words: nil, Length: rapid.IntRange(1, 12).Draw(t, "len"), Scheme: gen.Scheme(t, false), Sep: gen.Sep(t, false, false)}, Calls: rapid.IntRange(0, 1).Draw(t, "which")}
@@ -227,4 +236,63 @@ func TestC08(t *testing.T) {
 		c.Perms[0] = idx
 		return c08Run(c)
 	})
+}
+
+// c08Huge builds c.Calls distinct 7-character words plus the word "4" and
+// compares Entropy() of every documented scheme with Length*log2(size): no
+// capitalisation bonus, because "4" is its own title-cased form.
+func c08Huge(c c08Case) error {
+	n := c.Calls
+	wl, err := hugeList(n)
+	if err != nil {
+		return err
+	}
+	size := float64(n + 1)
+	for _, scheme := range []string{c.W.Scheme, "random", "one", "none", "all", "first"} {
+		for _, L := range []int{c.W.Length, 1, 2, 7} {
+			r := spg.NewWLRecipe(L, wl)
+			r.Capitalize = spg.CapScheme(scheme)
+			r.SeparatorFunc = spg.SFNone
+			want := float64(L) * math.Log2(size)
+			for k := 0; k < 2; k++ {
+				if got := r.Entropy(); !oracle.Close32(got, want, 4, 0) {
+					return fmt.Errorf("list of 2^24+%d words, one of them \"4\": Length %d scheme %s: Entropy() = %v, want %.5f (no capitalisation bonus)", n+1-(1<<24), L, scheme, got, want)
+				}
+			}
+		}
+	}
+	ev.NonTrivial(fmt.Sprintf("huge|%d|%s|%d", n, c.W.Scheme, c.W.Length))
+	ev.Class("huge_list_beyond_2^24")
+	return nil
+}
+
+// hugeList builds a list of n distinct 7-character words plus the word "4"
+// (which is its own title-cased form), placed in the middle of the input.
+func hugeList(n int) (*spg.WordList, error) {
+	const hex = "0123456789abcdef"
+	buf := make([]byte, 7*n)
+	for i := 0; i < n; i++ {
+		buf[7*i] = 'w'
+		for k, v := 0, i; k < 6; k, v = k+1, v>>4 {
+			buf[7*i+6-k] = hex[v&15]
+		}
+		if i>>24 != 0 {
+			buf[7*i] = 'x' // 2^24 and beyond: "x" + the low six digits
+		}
+	}
+	big := string(buf)
+	buf = nil
+	words := make([]string, 0, n+1)
+	for i := 0; i < n/2; i++ {
+		words = append(words, big[7*i:7*i+7])
+	}
+	words = append(words, "4")
+	for i := n / 2; i < n; i++ {
+		words = append(words, big[7*i:7*i+7])
+	}
+	wl, err := spg.NewWordList(words)
+	if err != nil {
+		return nil, fmt.Errorf("NewWordList failed on %d distinct words: %v", n+1, err)
+	}
+	return wl, nil
 }
